@@ -129,6 +129,11 @@ func checkMain(repo, verif string, args []string) int {
 	}
 	seed, _ := strconv.Atoi(os.Getenv("VERIF_SEED"))
 	evPath := filepath.Join(verif, "evidence", *prop+".json")
+	if st := os.Getenv("VERIF_SELFTEST"); st != "" {
+		// the must-fail self-test runs the checks on deliberately broken copies of the repository: its
+		// evidence and replay files must not replace the ones of the real tree
+		evPath = filepath.Join(verif, "work", "selftest", st, *prop+".json")
+	}
 	os.MkdirAll(filepath.Dir(evPath), 0o755)
 	os.Remove(evPath)
 
@@ -145,6 +150,9 @@ func checkMain(repo, verif string, args []string) int {
 	violations := 0
 	var violationLines []string
 	replayDir := filepath.Join(verif, "replays", *prop)
+	if st := os.Getenv("VERIF_SELFTEST"); st != "" {
+		replayDir = filepath.Join(verif, "work", "selftest", st, "replays", *prop)
+	}
 	os.RemoveAll(replayDir)
 	os.MkdirAll(replayDir, 0o755)
 	reportViolation := func(obl string, detail map[string]interface{}, confirmed bool) {
